@@ -35,7 +35,7 @@ func init() {
 			"the client shuffles shards with the global math/rand source: which hosts are reached is not replayable, the verdict is always computed from the calls actually recorded",
 			"circuit breakers are process-global by name: ordinary workers use thresholds that never open, one worker group uses thresholds that do",
 		},
-		Batches: tiered(16, 128),
+		Batches: tiered(16, 256),
 		Run:     runC09,
 		Timeout: timeoutFor(10*time.Minute, 45*time.Minute),
 	})
